@@ -90,13 +90,38 @@ def pairs_for(fn):
     return ps
 
 
+def callee_pairs_for(fn):
+    """(pointer argument, byte-length argument) pairs of the repository functions fn calls: the region handed to the
+    callee must lie inside the caller's buffer (the callee is analysed under exactly that assumption)"""
+    u = fn.unit
+    out = {}
+    for pos, root, c, ps in fn.calls():
+        name = c.get("fn")
+        if not name or name in out or name in absint.COPY_CALLS:
+            continue
+        cal = u.fn(name)
+        if cal is None or not cal.params:
+            continue
+        idx = {p["n"]: i for i, p in enumerate(cal.params)}
+        prs = []
+        for pn, sn, usz in pairs_for(cal):
+            if usz != 1 or pn not in idx or sn not in idx:
+                continue
+            pt = u.type(cal.params[idx[pn]]["t"])
+            to = u.type(pt["to"]) if pt["k"] == "ptr" else {}
+            prs.append((idx[pn], idx[sn], "r" if to.get("const") else "w"))
+        if prs:
+            out[name] = prs
+    return out
+
+
 def analyse_one(args):
     facts_path, label, fname, budget = args
     t0 = time.time()
     try:
         u = core.Unit(facts_path, label)
         fn = u.fn(fname)
-        an = absint.Analysis(fn, pairs=pairs_for(fn))
+        an = absint.Analysis(fn, pairs=pairs_for(fn), callee_pairs=callee_pairs_for(fn))
         an.budget = budget
         if fname in absint.RET_LE_ARG:
             an.ret_le = fn.params[absint.RET_LE_ARG[fname]]["n"]
